@@ -59,6 +59,8 @@ pub struct ProbeStats {
 pub struct Run {
     pub log: Vec<Event>,
     pub clock_ns: u64,
+    pub clock_jitter: u64,
+    pub clock_reads: u64,
     pub sleepers: Vec<(u64, shuttle::thread::Thread)>,
     pub sleeps: u64,
     pub stdin: VecDeque<Option<String>>,
@@ -93,6 +95,8 @@ impl Run {
         Self {
             log: Vec::new(),
             clock_ns: 0,
+            clock_jitter: rng_seed ^ 0x9e3779b97f4a7c15,
+            clock_reads: 0,
             sleepers: Vec::new(),
             sleeps: 0,
             stdin: VecDeque::new(),
@@ -225,7 +229,22 @@ pub fn current_task() -> usize {
 
 // ---------------------------------------------------------------- clock
 
+/// Reads the simulated clock. Reading it takes time: every read moves the clock on by a
+/// small seeded amount (at most a microsecond), so two reads never see the same instant,
+/// exactly as with a real monotonic clock. (An `elapsed()` of exactly zero right after
+/// `now()` would hide bugs that depend on time having passed.)
 pub fn now_ns() -> u64 {
+    with(|r| {
+        r.clock_jitter = r.clock_jitter.wrapping_mul(6364136223846793005).wrapping_add(1442695040888963407);
+        let dt = 1 + (r.clock_jitter >> 54) % 1000;
+        r.clock_ns = r.clock_ns.saturating_add(dt);
+        r.clock_reads += 1;
+        r.clock_ns
+    })
+}
+
+/// World side: the clock value without the cost of reading it.
+pub fn peek_ns() -> u64 {
     with(|r| r.clock_ns)
 }
 
